@@ -24,6 +24,8 @@ def tok(t, pos):
         return {'jump': {'label': 'l' + t[1]}}
     if t in ('ca', 'cb'):
         return {'jump': {'label': 'l' + t[1], 'expr': _call('cc')}}
+    if t in ('pa', 'pb'):
+        return {'jump': {'label': 'l' + t[1], 'expr': {'variable': 'pv'}}}        # condition is a host value of any type
     if t in ('la', 'lb'):
         return {'label': 'l' + t[1]}
     if t == 'ret':
@@ -65,13 +67,33 @@ def programs(maxlen):
     return out
 
 
+def value_programs(maxlen=3):
+    """lists whose conditional jumps test a host value of any type (truthiness must be value_boolean's, e.g. {} is true)"""
+    out = []
+    for n in range(1, maxlen + 1):
+        for toks in itertools.product(('log', 'pa', 'pb', 'la', 'lb', 'ret'), repeat=n):
+            if 'pa' in toks or 'pb' in toks:
+                out.append((toks, None))
+    return out
+
+
 def is_symbolic(prog):
     toks, fb = prog
     body = FBODIES[fb] if fb else ()
     return any(t in ('ca', 'cb') for t in toks) or ('call' in toks and any(t in ('ca', 'cb') for t in body))
 
 
-def run_real(model, bits, limit=LIMIT):
+PV_POOL = [None, 0, '', [], {}, {'a': 1}, 1, 'x', [0], 0.0, True, False, -0.0]
+
+
+def pv_value(i):
+    for j in range(len(PV_POOL)):
+        if i == j:
+            return PV_POOL[j]
+    return None
+
+
+def run_real(model, bits, limit=LIMIT, pv=None):
     k = [0]
     tr = []
 
@@ -84,19 +106,19 @@ def run_real(model, bits, limit=LIMIT):
 
     def tt(args, options):
         tr.append(args[0] if args else None)
-    g = {'cc': cc, 'tt': tt}
+    g = {'cc': cc, 'tt': tt, 'pv': pv}
     opts = {'globals': g, 'maxStatements': limit}
     try:
         r = ('ok', execute_script(model, opts))
     except BareScriptRuntimeError as e:
         r = ('err', str(e))
     with untraced():
-        names = [n for n in g if n not in LIB_NAMES and n not in ('cc', 'tt')]
+        names = [n for n in g if n not in LIB_NAMES and n not in ('cc', 'tt', 'pv')]
     final = [(n, g[n]) for n in sorted(names) if not callable(g[n])]
     return r, tr, final, opts['statementCount']
 
 
-def run_ref(model, bits, limit=LIMIT):
+def run_ref(model, bits, limit=LIMIT, pv=None):
     k = [0]
     tr = []
 
@@ -109,30 +131,30 @@ def run_ref(model, bits, limit=LIMIT):
 
     def tt(args, options):
         tr.append(args[0] if args else None)
-    vm = RefVM({'cc': cc, 'tt': tt}, limit=limit)
+    vm = RefVM({'cc': cc, 'tt': tt, 'pv': pv}, limit=limit)
     try:
         r = ('ok', vm.run(model))
     except BareScriptRuntimeError as e:
         r = ('err', str(e))
     with untraced():
-        names = [n for n in vm.g if n not in LIB_NAMES and n not in ('cc', 'tt')]
+        names = [n for n in vm.g if n not in LIB_NAMES and n not in ('cc', 'tt', 'pv')]
     final = [(n, vm.g[n]) for n in sorted(names) if not callable(vm.g[n])]
     return r, tr, final, vm.count
 
 
-def check_one(prog, bits, twice=True):
+def check_one(prog, bits, twice=True, pv=None):
     """-> None when the program behaves per the documented statement semantics, else a description."""
     model = build(*prog)
     with untraced():
         before = copy.deepcopy(model)
-    real = run_real(model, bits)
-    ref = run_ref(before, bits)
+    real = run_real(model, bits, pv=pv)
+    ref = run_ref(before, bits, pv=pv)
     if real != ref:
         return {'clause': 'statement semantics vs reference machine', 'real': repr(real)[:300], 'reference': repr(ref)[:300]}
     if model != before:
         return {'clause': 'execution modified the model', 'before': repr(before)[:300], 'after': repr(model)[:300]}
     if twice:
-        again = run_real(model, bits)
+        again = run_real(model, bits, pv=pv)
         if again != real:
             return {'clause': 'second execution of the same model differs', 'first': repr(real)[:300], 'second': repr(again)[:300]}
         if model != before:
@@ -140,9 +162,10 @@ def check_one(prog, bits, twice=True):
     return None
 
 
-def check_batch(progs, bits):
+def check_batch(progs, bits, pvi=None):
+    pv = pv_value(pvi) if pvi is not None else None
     for prog in progs:
-        bad = check_one(prog, bits, twice=('call' in prog[0]))
+        bad = check_one(prog, bits, twice=('call' in prog[0]), pv=pv)
         if bad is not None:
             bad['program'] = [list(prog[0]), prog[1]]
             bad['model'] = repr(build(*prog))[:600]
